@@ -68,6 +68,9 @@ class TPrim(Ty):
 
 
 INT, BOOL, REAL, STR, NONE, ANY = (TPrim(n) for n in ('int', 'bool', 'float', 'str', 'None', 'Any'))
+# IEEE-754 binary64 value (NaN and infinities exist, comparisons follow IEEE): only for values parsed by float() whose
+# range is then checked by comparisons (option conversion); no arithmetic
+FP64 = TPrim('fp64')
 
 
 class TEnum(Ty):
@@ -153,6 +156,8 @@ def sort_of(ty):
         return z3.BoolSort()
     if ty == REAL:
         return z3.RealSort()
+    if ty == FP64:
+        return z3.Float64()
     if ty == STR:
         return Str
     if isinstance(ty, (TObj, TList, TSet, TDict, TRec)):
